@@ -414,6 +414,9 @@ class Recorder:
                   stack_max_items=max_items, stack_max_item_size=max_item_size,
                   callstack_limit=callstack_limit)
         verdict, exc = None, None
+        from . import softfork
+        fork_ctx = softfork.installed(forks or {})
+        fork_ctx.__enter__()
         self.install()
         old_limit = sys.getrecursionlimit()
         # the embedder is assumed to call from a shallow stack (depth 20)
@@ -432,6 +435,7 @@ class Recorder:
         finally:
             sys.setrecursionlimit(old_limit)
             self.uninstall()
+            fork_ctx.__exit__(None, None, None)
         # the end event: nothing is running any more
         self.fstack = []
         self.final_stack = list(self.stack_obj.deque) if self.stack_obj is not None else []
